@@ -391,6 +391,185 @@ def system_runs(ctx, drv, items, out):
     return total
 
 
+# ------------------------------------------------- remote-written distributed buffer (driver-level programs)
+TSPEC_DIST = {'dirs': ['rdma'], 'module': 'DistFlushTrace.tla', 'cfg': 'DistFlushTrace.cfg', 'timeout': 900}
+
+
+def _program(acts, ngpu, gputype='r9nano'):
+    """Application-level steps of a DistFlushScen behaviour -> program for `c18 -distrun`.  Versions are renumbered
+    1, 2, ... in program order (a stale page is then always distinguishable), a final D2H reads everything back."""
+    ops, ver, pages = [], 0, 0
+    for a in acts:
+        k = a.get('a')
+        if k == 'Alloc':
+            ops.append({'a': 'Alloc', 'g': a['g']})
+        elif k == 'Place':
+            pages = len(a['f'])
+            ops.append({'a': 'Place', 'f': list(a['f'])})
+        elif k == 'Store':
+            ver += 1
+            ops.append({'a': 'Store', 'g': a['g'], 'v': ver})
+        elif k == 'H2D':
+            ver += 1
+            ops.append({'a': 'H2D', 'v': ver})
+        elif k == 'D2H' and ver > 0:       # what a buffer holds before its first write is nobody's business
+            ops.append({'a': 'D2H'})
+    if not ops or ops[0]['a'] != 'Alloc' or ver == 0:
+        return None
+    if ops[-1]['a'] != 'D2H':
+        ops.append({'a': 'D2H'})
+    return {'gputype': gputype, 'ngpu': ngpu, 'pages': pages or 2, 'ops': ops}
+
+
+def _family(thorough):
+    def prog(n, pages, ops, t='r9nano'):
+        return {'gputype': t, 'ngpu': n, 'pages': pages, 'ops': ops}
+    A, D, S, R, H = (lambda g: {'a': 'Alloc', 'g': g}), (lambda gs: {'a': 'Distribute', 'gpus': gs}), \
+        (lambda g, v: {'a': 'Store', 'g': g, 'v': v}), {'a': 'D2H'}, (lambda v: {'a': 'H2D', 'v': v})
+    fam = [prog(2, 4, [A(1), D([1]), S(1, 1), R]),                                   # single-GPU placement (reference)
+           prog(2, 4, [A(1), D([1, 2]), S(1, 1), R, H(2), R, S(2, 3), R]),            # the seed's demo and beyond
+           prog(2, 5, [A(2), D([1, 2]), S(2, 1), R, S(1, 2), R]),                     # remainder page, kernel on GPU 2 first
+           prog(4, 4, [A(1), {'a': 'Place', 'f': [3, 3, 4, 4]}, S(1, 1), R])]         # no page left on the kernel's GPU
+    if thorough:
+        fam += [prog(4, 5, [A(1), D([1, 2, 3, 4]), S(1, 1), R, S(3, 2), R]),
+                prog(4, 8, [A(2), D([4, 3, 1]), H(1), R, S(2, 2), R]),
+                prog(2, 4, [A(1), D([1, 2]), S(1, 1), R, S(2, 2), R], 'mi300a'),
+                prog(4, 6, [A(1), D([2, 3, 4]), S(1, 1), H(2), S(4, 3), R], 'mi300a')]
+    return fam
+
+
+def _acts_of_error_trace(out):
+    import tlaval
+    acts = []
+    for body in _ERRSTATE.split(out)[1:]:
+        m = _ACT.search(body.split('\n\n')[0] + '\n')
+        if m:
+            acts.append(tlaval.parse_value(m.group(1)))
+    return acts
+
+
+def dist_corruptions():
+    def no_flush_of_remote_owner(recs, rng):
+        # drop the flush of a GPU that is not the kernel's GPU but owns a page (request and answer)
+        kern = next((r['g'] for r in recs if r['e'] == 'Store'), None)
+        owners = {r['g'] for r in recs if r['e'] == 'RemoteStore'}
+        for g in sorted(owners - {kern}):
+            out = [r for r in recs if not (r['e'] in ('FlushReq', 'FlushRsp') and r['g'] == g)]
+            if len(out) < len(recs):
+                return out
+        return None
+
+    def stale_page(recs, rng):
+        idx = [i for i, r in enumerate(recs) if r['e'] == 'HostRead' and r['v'] > 0]
+        if not idx:
+            return None
+        recs[rng.choice(idx)]['v'] -= 1
+        return recs
+
+    def copy_to_wrong_gpu(recs, rng):
+        idx = [i for i, r in enumerate(recs) if r['e'] == 'D2HSend' and r.get('buf') == 1]
+        if not idx:
+            return None
+        i = rng.choice(idx)
+        recs[i]['g'] = recs[i]['g'] % 2 + 1
+        return recs
+    return [('no_flush_of_remote_owner', no_flush_of_remote_owner), ('host_reads_stale_page', stale_page),
+            ('copy_request_to_wrong_gpu', copy_to_wrong_gpu)]
+
+
+def dist_runs(ctx, drv, progs, out):
+    """`c18 -distrun`; a crash of the simulator process leaves the written-through log, a Panic line is appended."""
+    pfile = os.path.join(ctx.scratch, 'dist_programs_%d.json' % len(os.listdir(ctx.scratch)))
+    json.dump(progs, open(pfile, 'w'))
+    p, stats = common.run_driver(ctx, drv, ['-distrun', pfile, '-out', out], timeout=900)
+    if stats is None:
+        if 'panic:' not in p.stdout and 'fatal error:' not in p.stdout and 'Panic:' not in p.stdout:
+            raise vlib.Infra('driver failed (distrun): %s' % p.stdout[-2000:])
+        lines = [l for l in open(out).read().splitlines() if l.strip()] if os.path.exists(out) else []
+        if lines:
+            try:
+                json.loads(lines[-1])
+            except ValueError:
+                lines = lines[:-1]
+        if not lines:
+            raise vlib.Infra('distrun crashed before logging anything: %s' % p.stdout[-1500:])
+        msg = next((l for l in p.stdout.splitlines() if 'anic:' in l or l.startswith('fatal error:')), 'panic')
+        lines.append(json.dumps({'e': 'Panic', 'msg': 'simulator process died: ' + msg[:200], 'seq': len(lines) + 1}))
+        open(out, 'w').write('\n'.join(lines) + '\n')
+        stats = {'crashes': 1}
+    return stats
+
+
+def dist_part(ctx, drv, thorough):
+    """C18, buffer distributions: a buffer whose pages live on GPUs that only Distribute / Remap gave them, written
+    by a kernel on another GPU (remote stores through the RDMA engines into the owner's write-back L2), read back
+    by the host.  DistFlush.tla is model-checked; its deviation FlushOnlyGPUsInUse must violate HostSeesLastWrite and
+    the counterexample is the first program; programs run on the real timing platform and their logs must be
+    behaviours of the spec (DistFlushTrace.tla)."""
+    r = ctx.tlc_expect_ok(['rdma'], 'DistFlush.tla', 'MC_DistFlush_big.cfg' if thorough else 'MC_DistFlush.cfg',
+                          workers=4, timeout=1800)
+    ctx.log('DistFlush (driver flushes before host copies, pages spread over GPUs): %d distinct states' % r.distinct)
+    res = ctx.tlc(['rdma'], 'DistFlushScen.tla', 'DistFlushScen_inuse.cfg', workers=1, timeout=600, kind='deviation')
+    if 'HostSeesLastWrite' not in res.violated:
+        raise vlib.Infra('the FlushOnlyGPUsInUse deviation does not violate HostSeesLastWrite in the model\n' + res.out[-1500:])
+    ce = _program(_acts_of_error_trace(res.out), 2)
+    if ce is None:
+        raise vlib.Infra('cannot turn the FlushOnlyGPUsInUse counterexample into a program')
+    ctx.cov.setdefault('deviation_counterexamples', {})['FlushOnlyGPUsInUse'] = {'violates': 'HostSeesLastWrite', 'program': ce['ops']}
+    sim = ctx.tlc(['rdma'], 'DistFlushScen.tla', 'DistFlushScen.cfg', workers=1, timeout=600, kind='simulate',
+                  simulate='file=beh,num=%d' % (60 if thorough else 12), depth=40, seed=ctx.seed)
+    if sim.violated:
+        raise vlib.Infra('simulation of DistFlushScen violated %s' % sim.violated)
+    progs, seen = [ce] + _family(thorough), set()
+    import tlaval
+    for f in sorted(os.listdir(sim.dir)):
+        if not f.startswith('beh_'):
+            continue
+        acts = []
+        for body in _STATE.split(open(os.path.join(sim.dir, f)).read())[1:]:
+            m = _ACT.search(body)
+            if m:
+                acts.append(tlaval.parse_value(m.group(1)))
+        pr = _program(acts, 3)
+        key = json.dumps(pr, sort_keys=True)
+        if pr is not None and key not in seen and len(seen) < (40 if thorough else 5):
+            seen.add(key)
+            progs.append(pr)
+    t = os.path.join(ctx.scratch, 'trace_dist.ndjson')
+    stats = dist_runs(ctx, drv, progs, t)
+    parts = vlib.split_traces(t)
+    remote = sum(1 for _, recs in parts if any(r['e'] == 'RemoteStore' for r in recs))
+    ctx.log('remote-written distributed buffer: %d programs on the real timing platform (%d with stores through RDMA): %s'
+            % (len(progs), remote, stats))
+    n = common.validate_and_triage(ctx, TSPEC_DIST, t, {'cmd': 'c18', 'distrun': progs})
+    ctx.log('trace validation: %d distributed-buffer traces accepted' % n)
+    if stats.get('hangs') and n == len(parts):
+        raise vlib.Infra('a distributed-buffer program hung although its log is accepted')
+    if not ctx.violations:
+        if remote == 0:
+            raise vlib.Infra('no program stored to a page of another GPU: the family is vacuous')
+        rng = random.Random(ctx.seed)
+        rejected = []
+        for name, fn in dist_corruptions():
+            for _, recs in parts:
+                bad = fn(copy.deepcopy(recs), rng)
+                if bad is None:
+                    continue
+                pth = os.path.join(ctx.scratch, 'selftest_dist_%s.ndjson' % name)
+                vlib.write_ndjson(pth, bad)
+                v = ctx.validate_trace(TSPEC_DIST['dirs'], TSPEC_DIST['module'], TSPEC_DIST['cfg'], pth)
+                if v['accepted']:
+                    raise vlib.Infra('binding self-test: corruption %r was ACCEPTED by DistFlushTrace.tla' % name)
+                rejected.append({'corruption': name, 'violated': v['violated'] or ['no_matching_action']})
+                break
+            else:
+                raise vlib.Infra('binding self-test: corruption %r applies to no distributed-buffer trace' % name)
+        ctx.cov['binding_selftest_dist'] = rejected
+    ctx.cov['distributed_buffer_programs'] = {'run': len(progs), 'with_remote_stores': remote,
+                                             'events': sum(len(recs) for _, recs in parts)}
+    return len(parts), sum(len(recs) for _, recs in parts)
+
+
 def drive(ctx, drv, args, what):
     p, stats = common.run_driver(ctx, drv, args)
     if stats is None:
@@ -421,7 +600,8 @@ def model_check(ctx, thorough):
 def run_rdma(ctx):
     thorough = ctx.tier == 'thorough'
     drv = ctx.go_build('c18')
-    pool = ThreadPoolExecutor(max_workers=2)
+    pool = ThreadPoolExecutor(max_workers=3)
+    dist = pool.submit(dist_part, ctx, drv, thorough)
     if thorough:
         model_check(ctx, True)
         mc = None
@@ -432,7 +612,10 @@ def run_rdma(ctx):
     finally:
         if mc is not None:
             mc.result()          # re-raises vlib.Infra of the model-checking thread
+        nd, ne = dist.result()
         pool.shutdown()
+    ctx.cov['evaluations'] = ctx.cov.get('evaluations', 0) + nd
+    ctx.cov['events_validated'] = ctx.cov.get('events_validated', 0) + ne
     ctx.cov['transitions'] += ctx.cov.pop('simulated_transitions', 0)
 
 
@@ -564,6 +747,12 @@ def replay(ctx, path):
     if d.get('cmd') != 'c18' and run_system is not None and 'replay_system' in globals():
         return globals()['replay_system'](ctx, path)
     drv = ctx.go_build('c18')
+    if 'distrun' in d:
+        t = os.path.join(ctx.scratch, 'replay.ndjson')
+        dist_runs(ctx, drv, d['distrun'], t)
+        before = len(ctx.violations)
+        common.validate_and_triage(ctx, TSPEC_DIST, t, d)
+        return 1 if len(ctx.violations) > before else 0
     if 'sysruns' in d:
         t = os.path.join(ctx.scratch, 'replay.ndjson')
         system_runs(ctx, drv, d['sysruns'], t)
